@@ -153,6 +153,9 @@ pub struct HookLog {
     pub nrows: usize,
     pub ncols: usize,
     pub plant_index: usize,
+    /// convergence tolerance and iteration bound the SVD was asked to use
+    pub eps: Sym,
+    pub max_niter: usize,
 }
 /// planted factorisations, indexed by the stub model's state; `CUR_PLANT` is set by `StubModel::eval`
 pub static PLANTS: Mutex<Vec<Option<(Vec<Sym>, Vec<Sym>, Vec<Sym>)>>> = Mutex::new(Vec::new());
@@ -180,7 +183,7 @@ pub fn set_plants<T: HS>(plants: &[Option<Plant<T>>]) {
 /// over is logged so that the driver can prove it equals the planted product); for every other scalar
 /// type, and when nothing is planted, nalgebra's own algorithm runs.
 #[no_mangle]
-pub extern "Rust" fn __verif_svd_hook(tid: std::any::TypeId, data: *const u8, nrows: usize, ncols: usize, u: *mut u8, s: *mut u8, vt: *mut u8) -> bool {
+pub extern "Rust" fn __verif_svd_hook(tid: std::any::TypeId, data: *const u8, nrows: usize, ncols: usize, u: *mut u8, s: *mut u8, vt: *mut u8, eps: *const u8, max_niter: usize) -> bool {
     if tid != std::any::TypeId::of::<Sym>() {
         return false;
     }
@@ -193,7 +196,7 @@ pub extern "Rust" fn __verif_svd_hook(tid: std::any::TypeId, data: *const u8, nr
     unsafe {
         let d = data as *const Sym;
         let handed: Vec<Sym> = (0..nrows * ncols).map(|i| *d.add(i)).collect();
-        HOOK_LOG.lock().unwrap().push(HookLog { handed, nrows, ncols, plant_index: cur });
+        HOOK_LOG.lock().unwrap().push(HookLog { handed, nrows, ncols, plant_index: cur, eps: *(eps as *const Sym), max_niter });
         if pu.len() != nrows * k || pvt.len() != k * ncols {
             // a matrix of the wrong shape was handed to the SVD: reported through the hook log
             // (shape mismatch is a failed hook obligation); fall back to the real algorithm
@@ -218,6 +221,10 @@ pub fn hook_obligations_from_log(out: &mut Out<Sym>) {
     let log = HOOK_LOG.lock().unwrap();
     let prods = PLANT_PRODUCTS.lock().unwrap();
     for (ci, h) in log.iter().enumerate() {
+        // the SVD's own convergence tolerance must be a tiny constant (nalgebra's default is 5 * machine epsilon);
+        // in particular it must not depend on the user's truncation threshold or any other input
+        let tol_ok = h.eps.as_const().map(|c| verif_sym::q_to_f64(&c).abs() <= 1e-9).unwrap_or(false);
+        out.fact("SVD.tolerance", tol_ok, format!("svd call {ci}: the convergence tolerance handed to the SVD is {:?} (max_niter = {}): not a small constant", h.eps.node(), h.max_niter));
         let Some(Some((pr, pc, a))) = prods.get(h.plant_index) else { continue };
         if (h.nrows, h.ncols) != (*pr, *pc) {
             out.fact("SVD.input_shape", false, format!("svd call {ci}: matrix {}x{} handed to svd, expected {}x{}", h.nrows, h.ncols, pr, pc));
